@@ -54,6 +54,7 @@ def bounds(tier):
             "features with reachable main branch": ["apr_flatness", "apr_size", "apr_sum", "cp_magnitude",
                                                     "cp_position", "idt_maxima_75perc", "idt_monotony", "idt_sum",
                                                     "idt_sum_75perc", "size"],
+            "cp_magnitude window": "extra task with Na=11 (the window is empty below 10 samples beyond the contact point)",
             "outside": "longer segments; the >20/>50-sample branches; doubles"}
 
 
@@ -64,6 +65,11 @@ def tasks(tier):
         for sc in (("2",) if tier == "quick" else ("2", "1/3")):
             ts.append({"name": f"feature:{nm}:x{sc}", "fn": "t_feature", "args": {"name": nm, "na": na, "scale": sc},
                        "max_paths": 8000, "witnesses": ["computed"]})
+    # the residual-at-contact-point feature needs >= 10 approach samples beyond
+    # the contact point before its window is non-empty
+    ts.append({"name": "feature:feat_con_cp_magnitude:N11:x2", "fn": "t_feature",
+               "args": {"name": "feat_con_cp_magnitude", "na": 11, "scale": "2"},
+               "max_paths": 8000, "witnesses": ["computed", "defined"]})
     ts.append({"name": "order-and-subsets", "fn": "t_order", "args": {}, "witnesses": ["computed"]})
     for st in ("fresh", "unsuccessful", "unsuccessful-with-stale-parameters", "no-contact-point"):
         ts.append({"name": f"unfitted:{st}", "fn": "t_unfitted", "args": {"state": st}})
@@ -149,6 +155,7 @@ def t_feature(name, na, scale="2"):
         v = core.mk_int(core.iv(v))
     prove("nan-or-finite", is_nan(v) or not is_inf(v), info={"value": repr(v)[:80]})
     if not is_nan(v):
+        witness("defined")
         if name in BIN:
             prove("binary-is-0-or-1", any_of([same(v, 0), same(v, 1)]))
         if name in FRACTION:
